@@ -49,6 +49,97 @@ fn hash_of(mode: i64, hseed: u64, k: u64) -> u64 {
     }
 }
 
+/// FxHasher (rustc-hash 1.x, 64 bit) of a two-word element: ((rotl(a*K, 5)) ^ b) * K
+const FX_K: u64 = 0x51_7c_c1_b7_27_22_0a_95;
+fn fx2(a: u64, b: u64) -> u64 {
+    (a.wrapping_mul(FX_K).rotate_left(5) ^ b).wrapping_mul(FX_K)
+}
+
+/// element number `k` of the run's family: 0 = unrelated elements, 1 = all share one hash, 2 = all hash to 0,
+/// 3 = a mixture of the three
+fn trait_elem(family: i64, hseed: u64, k: u64) -> (u64, u64) {
+    let a = mix(hseed, k);
+    let t = mix(hseed, 0xF00D); // rotl(a*K,5) ^ b of the common-hash family
+    let fam = if family == 3 { (mix(hseed ^ 3, k) % 3) as i64 } else { family };
+    let b = match fam {
+        0 => mix(hseed ^ 0xB, k),
+        1 => a.wrapping_mul(FX_K).rotate_left(5) ^ t,
+        _ => a.wrapping_mul(FX_K).rotate_left(5),
+    };
+    (a, b)
+}
+
+/// the public trait entry point with elements whose real FxHash collides / is zero
+fn run_via_trait(plan: &Plan, ctx: &mut Ctx) -> R {
+    use rsdd::verif::UniqueTable;
+    let family = plan.get("hmode") & 3;
+    let hseed = plan.get("hseed") as u64;
+    let prop = "C02";
+    ctx.cur_prop = prop;
+    let tbl: *mut BackedRobinhoodTable<'static, (u64, u64)> = Box::leak(Box::new(BackedRobinhoodTable::<(u64, u64)>::new()));
+    let mut model: BTreeMap<(u64, u64), usize> = BTreeMap::new();
+    let mut addrs: BTreeSet<usize> = BTreeSet::new();
+    let mut direct_grows = 0;
+    let nkeys = plan.get("nkeys").max(1) as u64;
+    // the harness's idea of the hash must be the library's: checked once per run on the first element
+    {
+        use std::hash::{Hash, Hasher};
+        let e = trait_elem(family, hseed, 0);
+        let mut h = rustc_hash::FxHasher::default();
+        e.hash(&mut h);
+        assert!(h.finish() == fx2(e.0, e.1), "harness: FxHasher preimage formula out of date");
+    }
+    for (i, op) in plan.ops.iter().enumerate() {
+        ctx.step = i;
+        ctx.ops += 1;
+        match op.k {
+            K_INSERT | K_GET_BY_HASH | K_BULK_INSERT | K_BULK_RELOOKUP => {
+                let e = trait_elem(family, hseed, (op.a[0] as u64) % nkeys);
+                let r: &(u64, u64) = unsafe { (*tbl).get_or_insert(e) };
+                let a = r as *const (u64, u64) as usize;
+                ctx.ev(14, &[e.0, e.1, fx2(e.0, e.1), a as u64]);
+                ctx.check(prop, "table-stored-value", *r == e, || format!("get_or_insert({e:?}) (FxHash {:#x}) returned the address of {:?}", fx2(e.0, e.1), *r))?;
+                match model.get(&e) {
+                    Some(prev) => {
+                        ctx.check(prop, "table-same-key-same-address", *prev == a, || {
+                            format!("element {e:?} (FxHash {:#x}) was stored at {prev:#x} but a second copy was handed out at {a:#x}", fx2(e.0, e.1))
+                        })?;
+                    }
+                    None => {
+                        ctx.check(prop, "table-distinct-keys-distinct-addresses", !addrs.contains(&a), || {
+                            format!("new element {e:?} (FxHash {:#x}) was given address {a:#x} which already holds another element", fx2(e.0, e.1))
+                        })?;
+                        model.insert(e, a);
+                        addrs.insert(a);
+                    }
+                }
+                let n = unsafe { (*tbl).num_nodes() };
+                ctx.check(prop, "table-num-nodes", n == model.len(), || format!("num_nodes() = {n} but {} distinct elements were inserted", model.len()))?;
+            }
+            K_GROW => {
+                if direct_grows < 6 {
+                    direct_grows += 1;
+                    ctx.count("direct-grow", 1);
+                    unsafe { (*tbl).grow() };
+                    ctx.ev(11, &[]);
+                }
+            }
+            K_ITER => {
+                let mut seen: Vec<(u64, u64)> = unsafe { (*tbl).iter().copied().collect() };
+                seen.sort_unstable();
+                let expect: Vec<(u64, u64)> = model.keys().copied().collect();
+                ctx.check(prop, "table-iter-each-key-once", seen == expect, || format!("iter() yields {} entries, model has {} elements", seen.len(), expect.len()))?;
+                ctx.ev(12, &[seen.len() as u64]);
+            }
+            _ => {}
+        }
+    }
+    ctx.count("table-runs-through-public-trait", 1);
+    ctx.nontrivial = model.len() >= 2;
+    ctx.states.push(model.len() as u64);
+    Ok(())
+}
+
 impl World for TableWorld {
     fn name(&self) -> &'static str {
         "table"
@@ -85,6 +176,15 @@ impl World for TableWorld {
             cfg.insert("table_cap".into(), *c.pick(&caps));
             cfg.insert("hmode".into(), c.below(7) as i64);
             cfg.insert("by_hash".into(), if target == "C11" { 1 } else if target == "C02" { 0 } else { (c.below(4) == 0) as i64 });
+            // one structural-identity run in four goes through the public `UniqueTable::get_or_insert` (which hashes
+            // the element itself) with two-word elements whose FxHash the simulator controls through preimages:
+            // families of distinct elements with one common hash, and elements whose hash is exactly 0
+            let via_trait = target != "C11" && c.below(4) == 0;
+            cfg.insert("via_trait".into(), via_trait as i64);
+            if via_trait {
+                cfg.insert("by_hash".into(), 0);
+                cfg.insert("hmode".into(), c.below(4) as i64);
+            }
             let small = c.bool();
             let nkeys = 1 + c.below(if small { 12 } else { 120 }) as i64;
             cfg.insert("nkeys".into(), nkeys);
@@ -118,6 +218,9 @@ impl World for TableWorld {
     }
 
     fn execute(&self, plan: &Plan, ctx: &mut Ctx) -> R {
+        if plan.get_or("via_trait", 0) != 0 {
+            return run_via_trait(plan, ctx);
+        }
         let mode = plan.get("hmode");
         let hseed = plan.get("hseed") as u64;
         let by_hash = plan.get("by_hash") != 0;
